@@ -442,8 +442,25 @@ def run_pairs(spec):
     return dict(nt=nt, cls=cls)
 
 
+def _reorder(v):
+    """the same value with every dict written in reverse insertion order"""
+    t = tag(v)
+    if t in ('list', 'tuple'):
+        return [t, [_reorder(x) for x in v[1]]]
+    if t in ('dict', 'Dict', 'dictattr'):
+        return [t, [[k, _reorder(x)] for k, x in v[1]][::-1]]
+    if t == 'arr' and v[1] == 'object':
+        return ['arr', 'object', v[2], [_reorder(x) for x in v[3]]]
+    return v
+
+
 def run_copy_near(spec):
     vx = spec['x']
+    vr = _reorder(vx)
+    if vr != vx:
+        a, b = build(vx, Env()), build(vr, Env())
+        check(_eq('%s, the same with dict keys inserted in reverse order' % short(a, 150), a, b) and _eq('reverse order first', b, a),
+              'eq is False for %s and the same value with its dicts written in reverse key order', a)
     ms = _mutations(vx)
     kind, vm = ms[spec['mut'] % len(ms)]
     x = build(vx, Env())
@@ -455,7 +472,7 @@ def run_copy_near(spec):
     sm = short(m, 150)
     check(not _eq('%s, %s' % (sx, sm), x, m), 'eq(%s, %s) is True although they differ (%s)', x, m, kind)
     check(not _eq('%s, %s' % (sm, sx), m, x), 'eq(%s, %s) is True although they differ (%s)', m, x, kind)
-    cls = _classes(vx) + ['near=' + kind]
+    cls = _classes(vx) + ['near=' + kind] + (['dict_key_order_permuted'] if vr != vx else [])
     return dict(nt=tag(vx) in CONT or has_nan(vx), cls=cls)
 
 
